@@ -196,6 +196,9 @@ def cbmc_cmd(g, gb, trace=False):
     if g.get("no_pointer_primitive"):
         flags.remove("--pointer-primitive-check")
     flags += g.get("cbmc_flags", [])
+    sat = g.get("sat") or os.environ.get("VERIF_SAT")
+    if sat:
+        flags.append("--sat-solver " + sat)
     flags.append("--object-bits %d" % g.get("object_bits", 10))
     if g.get("unwind_default"):
         flags.append("--unwind %d" % g["unwind_default"])
@@ -284,7 +287,7 @@ def run_group(g, tier, root_wd, keep=False):
         for w in want:
             if not any(d == "REACH:" + w for d in reach_seen):
                 raise GroupError("reachability canary REACH:%s missing in group %s" % (w, g["name"]))
-        if reach_dead:
+        if reach_dead and not failed:
             raise GroupError("vacuous: canary %s is unreachable (contradictory requires / stub?)" % reach_dead)
         if n < g.get("min_obligations", 1):
             raise GroupError("vacuous: only %d obligations" % n)
